@@ -41,6 +41,14 @@ type dataset struct {
 	Series  []serie  `json:"series"`
 	DPs     []dpoint `json:"dps"`
 	Queries []string `json:"queries"`
+	Wins    [][2]int `json:"wins,omitempty"` // per query: time range [t0+lo, t0+hi] (both inclusive); absent = [0, window]
+}
+
+func (d dataset) win(qi int) (int, int) {
+	if qi < len(d.Wins) {
+		return d.Wins[qi][0], d.Wins[qi][1]
+	}
+	return 0, window
 }
 
 // one query at one stage: raw series id string -> timestamp -> value
@@ -71,14 +79,14 @@ func initMetrics(dir string) error {
 
 var qid uint64 = 5000
 
-func runQuery(q string, t0 uint32) qobs {
+func runQuery(q string, t0 uint32, lo, hi int) qobs {
 	o := qobs{Query: q, Res: map[string]map[uint32]float64{}}
 	defer func() {
 		if r := recover(); r != nil {
 			o.Errs = append(o.Errs, fmt.Sprintf("panic: %v", r))
 		}
 	}()
-	reqs, _, ariths, err := promql.ConvertPromQLToMetricsQuery(q, t0, t0+window, 0)
+	reqs, _, ariths, err := promql.ConvertPromQLToMetricsQuery(q, t0+uint32(lo), t0+uint32(hi), 0)
 	if err != nil || len(reqs) == 0 {
 		o.Errs = append(o.Errs, fmt.Sprintf("parse: %v", err))
 		return o
@@ -121,8 +129,9 @@ func runQuery(q string, t0 uint32) qobs {
 
 func queryStage(d dataset, stage string) stageObs {
 	so := stageObs{Stage: stage}
-	for _, q := range d.Queries {
-		so.Q = append(so.Q, runQuery(q, d.T0))
+	for qi, q := range d.Queries {
+		lo, hi := d.win(qi)
+		so.Q = append(so.Q, runQuery(q, d.T0, lo, hi))
 	}
 	return so
 }
@@ -248,8 +257,9 @@ func probeMain(args []string) {
 	}
 	for _, so := range obs {
 		fmt.Printf("== stage %s %v\n", so.Stage, so.Errs)
-		for _, q := range so.Q {
-			fmt.Printf("  %s   errs=%v\n", q.Query, q.Errs)
+		for qi, q := range so.Q {
+			lo, hi := d.win(qi)
+			fmt.Printf("  %s   over [+%d,+%d]   errs=%v\n", q.Query, lo, hi, q.Errs)
 			var ids []string
 			for id := range q.Res {
 				ids = append(ids, id)
